@@ -25,6 +25,7 @@ func (h *H) ProjectCatalog() M {
 	nodes, svcs, chks, coords := []M{}, []M{}, []M{}, []M{}
 	gws, topo, kinds, usage, vips, free := []M{}, []M{}, []M{}, M{}, []M{}, []string{}
 	tgw, igw, ces := []M{}, []M{}, []M{}
+	sdest := []string{}
 	nkv := 0
 	_ = s.WalkAllTables(func(table string, item any) bool {
 		switch table {
@@ -98,6 +99,10 @@ func (h *H) ProjectCatalog() M {
 				ces = append(ces, M{"kind": ce.GetKind(), "name": ce.GetName()})
 			}
 			switch e := item.(type) {
+			case *structs.ServiceConfigEntry:
+				if e.Destination != nil {
+					sdest = append(sdest, e.Name)
+				}
 			case *structs.TerminatingGatewayConfigEntry:
 				names := []string{}
 				for _, l := range e.Services {
@@ -127,6 +132,7 @@ func (h *H) ProjectCatalog() M {
 	sortM(vips, "name", "peer")
 	sortM(ces, "kind", "name")
 	sort.Strings(free)
-	return M{"nodes": nodes, "svcs": svcs, "chks": chks, "coords": coords, "gws": gws, "topo": topo, "kinds": kinds, "usage": usage,
+	sort.Strings(sdest)
+	return M{"sdest": sdest, "nodes": nodes, "svcs": svcs, "chks": chks, "coords": coords, "gws": gws, "topo": topo, "kinds": kinds, "usage": usage,
 		"vips": vips, "free": free, "tgw": tgw, "igw": igw, "nkv": nkv, "ces": ces}
 }
